@@ -20,6 +20,15 @@ CHECKS = {
  "C05": ("exploration", E2,
          "Every (destination tree, source tree, loop body) triple over F1(N) at depth 1 (unowned, tensor-owned, non-zero leaf default, uncompressed source with every active range) and over T2(2,2) / a T3(2,2,2) slice at depth 2-3, bodies = every assignment of leave / assign / accumulate / set-to-default to offered leaf references and descend / skip to offered sub-fibers, run on the real lshift iterator in lock-step with a nested-dict model: yielded sequence, source payload identity, reference shows z's current value/sub-tree, well-formedness and rank lists at every yield, final raw tree equal to the model (nothing left behind, nothing outside the source touched), source unchanged.",
          "Trusted: the nested-dict reference of populate semantics, calibrated on the pinned tree (probe q8: 104 976 cases); unowned destinations only where the library can infer the payload kind (see evidence assumptions).", "DESIGN.md §3 C05"),
+ "C06": ("exploration", E2,
+         "Every program (expression of an 11-member einsum family x loop order with operands swizzled to be concordant x uniform tiling of one or two index variables with both tile-loop placements x two-finger / leader-follower intersection) on every operand valuation over a small alphabet (empty operands and cancelling entries included) is executed by an interpreter written in the library's idiom and its output content compared with dense evaluation by nested loops.",
+         "Trusted: the interpreter mc/kernel.py as a faithful instance of the idiom; dense evaluation; index ranges 2-3, entries in {-1,0,1,2}.", "DESIGN.md §3 C06"),
+ "C15": ("model_checking", E1,
+         "(a) every kernel of a C06 sub-family is run with collection off and with collection on for every (or a stated set of) subset(s) of a per-kernel menu of trace registrations: identical output content, Compute.numOps equal to the interpreter's own ledger of executed multiplications / updates / accumulations, Compute.numIters of each iter trace equal to the loop bodies executed at that rank. (b) explicit-state search over sessions: transitions are whole collection sessions from a menu of nine (kernels with all/none/thresholded/consumable traces, an abandoned loop, a projection with matched ranks, a register-only session), the state is the canonical set of Metrics class attributes; the search reaches a fixpoint, and on every transition dump, trace files and output are byte-identical to the same session run from the pristine state.",
+         "Trusted: Metrics' state is exactly its class attributes; the interpreter's ledger; output tensors are declared with a shape.", "DESIGN.md §3 C15"),
+ "C16": ("exploration", E2,
+         "Loop nests of depth 1-3 (iteration, intersection, iteration over intersection, matrix-vector with populate, Gustavson matrix-matrix, projection) over every operand tree of small universes with explicit defaults and empty sub-fibers, all trace types the nest can emit registered at once: header, one row per simulated access in execution order (independent two-finger simulation incl. trailing peeks; loop bodies), stamp order (strict for iter), coordinates, positions against raw indices in the operand fibers; every flush threshold 2..rows+2 and consumable traces must give identical rows. Destination-side populate traces: header, stamp order, threshold/consumable independence only.",
+         "Trusted: the trace-row simulation (calibrated on 19 683 nests, probe q27); thresholds <= 9 plus 1000.", "DESIGN.md §3 C16"),
  "C04": ("exploration", E2,
          "Every ordered pair / k-tuple of fibers of the stated small universes (leaf, sub-fiber, tuple-coordinate, mixed-arity, uncompressed-format and n-ary families) is run through the real operators and compared with set algebra, payload identity, mask and freshness oracles; operands and owning tensors are snapshotted before and after. Exhaustive within the bounds, which contain every relative order of the last elements of both operands and every explicit-default placement.",
          "Trusted: the harness's construction of operands through Fiber()/Tensor.fromFiber and raw reads of coords/payloads; nothing is claimed beyond N<=7 coordinates, depth 2, k<=4.", "DESIGN.md §3 C04"),
